@@ -184,6 +184,9 @@ def plan(tier):
                 if opts and tmpl == 'manifest_e':
                     continue
                 items.append({'stream': stream, 'template': tmpl, 'opts': opts, 'tier': tier, 'mode': 'vod'})
+    for di in range(len(MPS_DEFS)):
+        for opts in ({}, {'timeline': '1'}):
+            items.append({'mode': 'mps', 'def': di, 'opts': opts, 'tier': tier})
     for stream, ref in (('bbb', 'bbb_a1'), ('bbb', 'bbb_t1'), ('synirr', 'synirr_a1')):
         for opts in ({'start': 'explicit', 'depth': '30'}, {'start': 'explicit', 'depth': '30', 'timeline': '1'}):
             items.append({'stream': stream, 'template': 'hand_made', 'opts': opts, 'tier': tier,
@@ -214,9 +217,103 @@ def execute_vod(item):
     return acc
 
 
+MPS_DEFS = [
+    [dict(stream='bbb', start=8.0, duration=12.0, tracks=[('video', 1), ('audio', 2)])],
+    [dict(stream='bbb', start=0.0, duration=8.0, tracks=[('video', 1), ('audio', 2)]),
+     dict(stream='tears', start=12.0, duration=16.0, tracks=[('video', 1), ('audio', 2)])],
+    [dict(stream='synirr', start=2.5, duration=5.0, tracks=[('video', 1), ('audio', 2)]),
+     dict(stream='bbb', start=4.0, duration=8.0, tracks=[('video', 1), ('audio', 2)])],
+]
+
+
+def execute_mps(item):
+    """The same clauses inside the Periods of a static multi-period presentation: $Number$ restarts at startNumber in
+    every Period and the Period starts at an offset into its source, so segment n is not stored fragment n."""
+    w = W.World.shared()
+    w.begin_item()
+    acc = core.Acc()
+    periods = MPS_DEFS[item['def']]
+    name = f'c02mps{item["def"]}'
+    rec = {'mode': 'mps', 'def': item['def'], 'opts': item['opts']}
+    try:
+        with w.appctx():
+            w.add_mps(name, [dict(pid=f'p{i + 1}', **p) for i, p in enumerate(periods)])
+            w.models.db.session.remove()
+        url = crawl.manifest_url('vod', name, 'hand_made', item['opts'], mps=True)
+        W.set_now(c01.NOON)
+        r = w.get(url)
+        acc.count('evaluations')
+        acc.count('transitions')
+        if r.status != 200:
+            acc.outcome(('mps-manifest', r.status))      # C12 judges the manifest
+            return acc
+        doc = mpd.Mpd(r.body, 'http://localhost' + url.split('?')[0])
+        for pi, p in enumerate(doc.periods):
+            stream = periods[min(pi, len(periods) - 1)]['stream']
+            st = crawl.Stored.fixture(stream)
+            for rep in p.reps:
+                if rep.id not in st.files or rep.template is None:
+                    continue
+                kind = rep.content_type
+                ts = rep.timescale
+                sn = rep.template.geti('startNumber', 1)
+                d = rep.template.geti('duration')
+                rr = dict(rec, period=p.id, rep=rep.id)
+                durs = {sg['duration'] for sg in st.files[rep.id]['segs'][:-1]}
+                shape = ('regular-durations' if len(durs) <= 1 else 'irregular-durations') + \
+                    ('|source-offset=0' if not periods[min(pi, len(periods) - 1)]['start'] else '|source-offset!=0')
+                if rep.template.timeline and rep.uses_time():
+                    entries = [('time', t_, d_, None) for (t_, d_) in rep.template.timeline[:16]
+                               if p.duration is None or Fraction(t_ - rep.template.timeline[0][0], ts) < p.duration]
+                elif d and rep.uses_number():
+                    limit = p.duration if p.duration is not None else 0
+                    entries = [('number', None, d, sn + k) for k in range(16) if Fraction(k * d, ts) < limit]
+                else:
+                    continue
+                for mode, t_, d_, n in entries:
+                    sr = w.get(mpd.split_url(rep.media_url(time=t_, number=n if n is not None else sn)))
+                    acc.count('evaluations')
+                    acc.count('transitions')
+                    acc.state(('mps', item['def'], tuple(sorted(item['opts'].items())), p.id, rep.id, mode, t_, n))
+                    if sr.status != 200:
+                        acc.outcome(('mps-segment', sr.status))     # C12 judges retrievability
+                        continue
+                    try:
+                        frag = bmff.Fragment(sr.body, st.files[rep.id]['init'])
+                    except bmff.Malformed as e:
+                        acc.violation(f'C02|mps|{mode}|unreadable|{kind}', f'{url} {p.id}/{rep.id}: {e}', rr)
+                        continue
+                    acc.nontriv(('mps', item['def'], tuple(sorted(item['opts'].items())), p.id, rep.id, mode, t_, n))
+                    tf = frag.tfdt['base_media_decode_time'] if frag.tfdt else None
+                    if tf is None:
+                        acc.violation(f'C02|mps|{mode}|no-tfdt|{kind}', f'{url} {p.id}/{rep.id}: no tfdt', rr)
+                        continue
+                    if mode == 'time':
+                        if tf != t_:
+                            acc.violation(f'C02|mps|time|tfdt!=t|{kind}|{shape}', f'{url} {p.id}/{rep.id} $Time$={t_} carries tfdt {tf}', rr)
+                        if frag.duration != d_:
+                            acc.violation(f'C02|mps|time|sum-durations!=d|{kind}|{shape}',
+                                          f'{url} {p.id}/{rep.id} $Time$={t_} advertised d={d_} but samples sum to '
+                                          f'{frag.duration}', rr)
+                    else:
+                        if frag.mfhd['sequence_number'] != n:
+                            acc.violation(f'C02|mps|number|sequence!=n|{kind}',
+                                          f'{url} {p.id}/{rep.id} $Number$={n} carries sequence_number '
+                                          f'{frag.mfhd["sequence_number"]}', rr)
+                        nominal = (n - sn) * d
+                        if abs(tf - nominal) > Fraction(d, 2):
+                            acc.violation(f'C02|mps|number|tfdt-far-from-nominal|{kind}',
+                                          f'{url} {p.id}/{rep.id} $Number$={n} nominal {nominal} but tfdt {tf}', rr)
+    finally:
+        w.reset()
+    return acc
+
+
 def execute(item):
     if item.get('mode') == 'vod':
         return execute_vod(item)
+    if item.get('mode') == 'mps':
+        return execute_mps(item)
     ref = item.get('ref')
     w = W.World.shared()
     if ref:
@@ -257,6 +354,9 @@ def run(ctx):
 
 
 def replay(record):
+    if record.get('mode') == 'mps':
+        acc = execute_mps({'def': record['def'], 'opts': record['opts']})
+        return [(s, v[0]['what']) for s, v in acc.viol.items() if s.startswith('C02|')]
     if record.get('mode') == 'vod':
         acc = execute_vod({'stream': record['stream'], 'template': record['template'], 'opts': record['opts']})
         return [(s, v[0]['what']) for s, v in acc.viol.items() if s.startswith('C02|')]
